@@ -424,6 +424,59 @@ func c09Dialing(rc *RunCtx, c *c09cfg, w *W1) {
 		n++
 	}
 	_ = extra
+	if rc.Viol == nil && simrt.Choose(2) == 0 {
+		// Churn while every dial is still held: callers give up, new callers
+		// arrive. A dialing connection that holds fewer queued queries than its
+		// queue limit admits another one, so a new dial may only start when all
+		// dialing connections are full.
+		simrt.Probe("c09.churn_while_dialing")
+		live := func() int {
+			k := 0
+			for _, x := range calls {
+				if x.Started && !x.Done && (x.Ctx == nil || x.Ctx.Err() == nil) {
+					k++
+				}
+			}
+			return k
+		}
+		var churnCancels []context.CancelFunc
+		add := func(idx int) {
+			call := w.NewCall(300+idx, 0, uint16(300+idx), 1)
+			ctx, cancel := context.WithCancel(context.Background())
+			call.Ctx = ctx
+			churnCancels = append(churnCancels, cancel)
+			calls = append(calls, call)
+			before, liveBefore := dialStarted, live()
+			simrt.GoNamed(fmt.Sprintf("churn%d", idx), func() {
+				w.Exchange(u, call)
+				simrt.Send(0, done, struct{}{})
+			})
+			n++
+			simrt.Sleep(0, time.Millisecond)
+			if dialStarted > before && liveBefore < before*c.Lq && rc.Viol == nil {
+				rc.Fail("dial_although_dialing_connection_has_room", "%d dialing connection(s) with queue limit %d hold %d live queued queries, yet one more caller made the transport dial again", before, c.Lq, liveBefore)
+			}
+		}
+		idx := 0
+		for round := 0; round < 1+simrt.Choose(3) && rc.Viol == nil; round++ {
+			// arrivals (some of them find everything full and open another connection)
+			for k := 1 + simrt.Choose(c.Lq+1); k > 0 && rc.Viol == nil; k-- {
+				add(idx)
+				idx++
+			}
+			// departures
+			for k := simrt.Choose(len(churnCancels) + 1); k > 0; k-- {
+				j := simrt.Choose(len(churnCancels))
+				churnCancels[j]()
+				simrt.Fault("queued_caller_gives_up_while_dialing")
+			}
+			simrt.Sleep(0, time.Millisecond)
+		}
+		for k := 1 + simrt.Choose(2); k > 0 && rc.Viol == nil; k-- {
+			add(idx)
+			idx++
+		}
+	}
 	simrt.Probe("c09.dial_released_with_queued_callers")
 	if len(cancels) > 0 {
 		simrt.GoNamed("cancel-at-dial-completion", func() {
